@@ -36,8 +36,55 @@ pub fn ref_enc_structure(context: &str, protected: &[u8], aad: &[u8]) -> Vec<u8>
     encode(&Item::Array(vec![Item::text(context), Item::bytes(protected), Item::bytes(aad)]))
 }
 
+/// The elements of a top-level array as read by the harness' own lenient reader (None when the
+/// bytes are not one well-formed array).
+pub fn wire_slots(bytes: &[u8]) -> Option<Vec<Item>> {
+    match crate::cbor::read_lenient(bytes).ok()? {
+        Item::Array(a) => Some(a),
+        _ => None,
+    }
+}
+
+/// Content of a byte-string slot (None for nil or anything else).
+pub fn slot_bytes(slots: &[Item], i: usize) -> Option<Vec<u8>> {
+    slots.get(i).and_then(|x| x.as_bytes().cloned())
+}
+
+/// External AAD for a structure whose protected slot holds `p`: mostly a byte string on the
+/// length-class lattice; sometimes bytes that are themselves a Sig_/MAC_/Enc_structure-shaped
+/// array naming a context and (mostly) the same protected bytes — an AAD that "is already
+/// assembled" must still be wrapped like any other.
+pub fn gen_aad(g: &mut Gen, p: &[u8]) -> Vec<u8> {
+    if !g.ratio(1, 10) {
+        return gen_class_bytes(g);
+    }
+    let all: Vec<&str> = SIG_CONTEXTS.iter().chain(MAC_CONTEXTS.iter()).chain(ENC_CONTEXTS.iter()).copied().collect();
+    let c: &&str = g.pick(&all);
+    let prot = if g.ratio(3, 4) { p.to_vec() } else { g.small_bytes() };
+    let mut a = vec![Item::text(c), Item::bytes(&prot)];
+    match g.below(3) {
+        0 => a.push(Item::bytes(&g.small_bytes())),
+        1 => {
+            a.push(Item::bytes(&g.small_bytes()));
+            a.push(Item::bytes(&g.small_bytes()));
+        }
+        _ => {
+            a.push(Item::bytes(&prot));
+            a.push(Item::bytes(&g.small_bytes()));
+            a.push(Item::bytes(&g.small_bytes()));
+        }
+    }
+    encode(&Item::Array(a))
+}
+
 /// A byte string whose length is drawn from the CBOR length-class lattice.
 pub fn gen_class_bytes(g: &mut Gen) -> Vec<u8> {
+    if g.ratio(1, 1000) {
+        // rarely: the next byte-count magnitudes (2^20, 2^24 and around it, 2^25)
+        let n = *g.pick(&[1usize << 20, (1 << 24) - 1, 1 << 24, (1 << 24) + 5, 1 << 25]);
+        let seed = g.bytes(7);
+        return (0..n).map(|i| seed[i % 7] ^ (i / 7) as u8).collect();
+    }
     let n = match g.weighted(&[8, 6, 3, 3, 1, 1]) {
         0 => g.below(5),
         1 => g.below(40),
